@@ -19,9 +19,9 @@ NOT_DECIDED = ("exactly-once, on-time and in-order execution under all interleav
                "occurrences; retirement timing — statements about histories of a libev loop and a clock")
 TRUSTED = ["clang 14 parser/CFG builder", "echse-facts extractor", "python rule engines in /verif/sa", "libev ev_periodic semantics"]
 LEVEL_TEXT = ("Static verdict on narrow necessary clauses of C04 only: peek-after-strict-unwind arming of the reschedule callback and "
-              "reachability of task retirement. The bulk of C04 (histories of timers, commands and child exits) is NOT decided by this check.")
+              "reachability of task retirement. The bulk of C04 (histories of timers, commands and child exits) is NOT decided by this check. Also: a cancel is acknowledged only after the watcher has been stopped; the run counter that gates real execution changes only with spawn and child exit (no bulk write over a live task record).")
 LEVEL_NOTE = "Trusted: clang 14 front end/CFG, extractor, rule engines, libev's contract for reschedule callbacks. Timing and interleavings are not modelled."
-TECHNIQUE = "static analysis: must-pass-through and def-use on clang CFGs of the reschedule/unwind/retire callbacks"
+TECHNIQUE = "static analysis: must-pass-through and def-use on clang CFGs of the reschedule/unwind/retire callbacks; bulk-write provenance of task records"
 
 POPS = ("echs_evstrm_pop",)
 PEEKS = ("echs_evstrm_next",)
